@@ -29,13 +29,16 @@ V(a, b, c)  == <<a, b, c>>
 D2 == 2000000
 MCOffsetVecsQuick == {V(0, 0, 0), V(0 - D2, 0, D2), V(D2, 0 - D2, 0)}
 MCOffsetVecsFull  == [MCChan -> {0 - D2, 0, D2}]
-MCMaxLosses == {0, 2000000}
+\* path loss per channel (each channel lies in its own frequency range of the impairment profile): none, and different
+\* losses per range (2 / 0 / 1 dB); thorough adds the uniform 2 dB
+MCMaxLossVecsQuick == {V(0, 0, 0), V(D2, 0, 1000000)}
+MCMaxLossVecs      == {V(0, 0, 0), V(D2, D2, D2), V(D2, 0, 1000000)}
 \* singletons for the configuration-loading generation run (the crossing grid is irrelevant there)
 MCDegNone == {"none"}
 MCCrossOne == {"express"}
 MCDeltaOne == {0}
 MCOffsetOne == {V(0, 0, 0)}
-MCMaxLossOne == {0}
+MCMaxLossOne == {V(0, 0, 0)}
 
 \* ---- emission for the spec -> code replay (B2)
 SetSeq(S) == IF "pch" \in S THEN (IF "psd" \in S THEN (IF "psw" \in S THEN <<"pch", "psd", "psw">> ELSE <<"pch", "psd">>)
@@ -47,16 +50,19 @@ EmitCross == phase # "out" \/
                           crossing |-> cfg.crossing, maxloss |-> cfg.maxloss,
                           node |-> NodePolicy(cfg), deg |-> DegSetting(cfg),
                           ch |-> [k \in 1..N |-> [baudDb |-> ChanType[k].baudDb, slotDb |-> ChanType[k].slotDb,
-                                                  offset |-> cfg.offset[k], in |-> last.in[k], tgt |-> last.tgt[k],
+                                                  offset |-> cfg.offset[k], maxloss |-> cfg.maxloss[k], in |-> last.in[k], tgt |-> last.tgt[k],
                                                   out |-> last.out[k]]]]))
 EmitLoad == phase \notin {"ready", "rejected"} \/
    PrintT("@@" \o ToJson([lib |-> SetSeq(cfg.lib), elt |-> SetSeq(cfg.elt), accepted |-> (phase = "ready"),
                           inforce |-> IF phase = "ready" THEN SetSeq(InForce(cfg)) ELSE <<>>]))
 \* non-vacuity probes: each must be VIOLATED (TLC finds a witness of the antecedent)
-ProbeEqualised == ~(Crossed /\ \E k \in 1..N : last.in[k] - cfg.maxloss > last.tgt[k] + cfg.offset[k])
-ProbeBelow     == ~(Crossed /\ \E k \in 1..N : last.in[k] - cfg.maxloss < last.tgt[k] + cfg.offset[k])
-ProbeMixed     == ~(Crossed /\ (\E k \in 1..N : last.in[k] - cfg.maxloss > last.tgt[k] + cfg.offset[k])
-                            /\ (\E k \in 1..N : last.in[k] - cfg.maxloss < last.tgt[k] + cfg.offset[k]))
+ProbeEqualised == ~(Crossed /\ \E k \in 1..N : last.in[k] - cfg.maxloss[k] > last.tgt[k] + cfg.offset[k])
+ProbeBelow     == ~(Crossed /\ \E k \in 1..N : last.in[k] - cfg.maxloss[k] < last.tgt[k] + cfg.offset[k])
+ProbeMixed     == ~(Crossed /\ (\E k \in 1..N : last.in[k] - cfg.maxloss[k] > last.tgt[k] + cfg.offset[k])
+                            /\ (\E k \in 1..N : last.in[k] - cfg.maxloss[k] < last.tgt[k] + cfg.offset[k]))
 ProbeRejected  == phase # "rejected"
 ProbeDegOtherKind == ~(Crossed /\ cfg.degKind # "none" /\ cfg.degKind \notin InForce(cfg))
+\* a channel left unequalised in a range whose loss is lower than the largest loss of the crossing
+ProbeLowerLossRange == ~(Crossed /\ \E k, j \in 1..N : cfg.maxloss[k] < cfg.maxloss[j]
+                                        /\ last.in[k] - cfg.maxloss[j] < last.tgt[k] + cfg.offset[k])
 ==============================================================================
